@@ -357,9 +357,17 @@ pub fn stage2_list(ctx: &Ctx, st: &mut Stats, n: usize) -> Result<Vec<(Tower, bo
                 // built, not which plain values sit in it - one shape per skeleton.
                 let quadratic = c == 1 || c == 2 || k.memo_grows;
                 let key: Vec<u8> = if quadratic { k.skeleton[..k.skeleton.len().saturating_sub(2)].to_vec() } else { k.skeleton.clone() };
-                let rep = ctx.thorough() || skeletons.insert(key);
-                let h = if quadratic && !rep { n / 4 } else { n };
-                all.push((scale_for(k, h), rep && (c <= 1 || ctx.thorough())));
+                let rep = skeletons.insert(key);
+                // thorough: linear shapes at 40 000, quadratic representatives at 24 000, the other quadratic
+                // shapes (all of them, not a sample) at 4 000
+                let h = match (quadratic, rep, ctx.thorough()) {
+                    (false, _, _) => n,
+                    (true, true, false) => n,
+                    (true, false, false) => n / 4,
+                    (true, true, true) => n * 3 / 5,
+                    (true, false, true) => n / 10,
+                };
+                all.push((scale_for(k, h), rep && c <= 1));
             }
         }
         st.add("towers: shapes also run in the unoptimised build", all.iter().filter(|(t, d)| *d && t.protocol == p).count() as u64);
@@ -602,7 +610,7 @@ pub fn run(ctx: &Ctx, out: &mut Outcome) {
     if out.failed() || out.inconclusive.is_some() {
         return;
     }
-    let (n_rel, n_dev) = if ctx.thorough() { (60_000, 20_000) } else { (12_000, 6_000) };
+    let (n_rel, n_dev) = if ctx.thorough() { (40_000, 15_000) } else { (12_000, 6_000) };
     let mut st = Stats::default();
     let t0 = std::time::Instant::now();
     let timing = std::env::var("C09_TOWER_TIMING").is_ok();
@@ -642,7 +650,7 @@ pub fn run(ctx: &Ctx, out: &mut Outcome) {
         Ok(exe) => {
             // the unoptimised build has the largest stack frames: the shapes that build nested or memoised
             // structure (all shapes in the thorough tier)
-            let dev_list: Vec<Tower> = pairs.iter().filter(|(_, b)| *b || ctx.thorough()).map(|(t, _)| t.scaled(n_dev)).collect();
+            let dev_list: Vec<Tower> = pairs.iter().filter(|(_, b)| *b).map(|(t, _)| t.scaled(n_dev)).collect();
             stage2(ctx, out, &exe, &dev_list, "[towers, unoptimised build] ", true);
             if timing {
                 eprintln!("towers: + unoptimised stage 2 {:?}", t0.elapsed());
